@@ -117,6 +117,15 @@ def run_case(case, ctx):
         return (Q @ (Q.T @ v.reshape(-1))).reshape(v.shape)
     z = gens.make_tt(N, case['Rz'], dt, 'gauss', g, M=M)
     w = gens.make_tt(N, case['Rw'], dt, 'gauss', g, M=M)
+    zk = case['seed'] % 13
+    if zk in (5, 9):
+        # the zero tensor in the forms the library itself hands out (zeros(...), 0*w, one vanishing core): P(0) = 0
+        if zk == 5:
+            z = ctx.call('TT*scalar', lambda t: t * 0.0, z)
+        else:
+            j0 = (case['seed'] // 13) % d
+            z = torchtt.TT([c * 0 if k_ == j0 else c for k_, c in enumerate(z.cores)])
+        ctx.count('projected-tensor:zero')
     dz, dw = dn.D(z), dn.D(w)
     P = tt.manifold.riemannian_projection
 
